@@ -38,7 +38,7 @@ def run_jobs(jobs, nproc=None, slice_s=20.0, total_budget_s=3600, verbose=False)
     remaining decision prefixes back to be redistributed."""
     global _JOBS
     _JOBS = jobs
-    nproc = nproc or min(16, os.cpu_count() or 1)
+    nproc = nproc or int(os.environ.get("VERIF_WORKERS", 0) or min(16, os.cpu_count() or 1))
     results = {i: H.JobResult(j) for i, j in enumerate(jobs)}
     started = {i: time.time() for i in results}
     t0 = time.time()
